@@ -30,7 +30,10 @@ FUNCS = {
     "builtins.len": len, "builtins.set": lambda x=(): set(np.asarray(x).tolist()) if not isinstance(x, set) else x, "builtins.sorted": sorted,
     "builtins.abs": abs, "builtins.min": min, "builtins.max": max, "builtins.int": int, "builtins.float": float, "builtins.round": round,
     "builtins.all": all, "builtins.any": any, "builtins.list": list, "builtins.tuple": tuple, "builtins.bool": bool, "builtins.sum": sum,
-    "builtins.range": range,
+    "builtins.range": range, "numpy.sin": np.sin, "numpy.cos": np.cos, "numpy.exp": np.exp, "numpy.arccos": np.arccos,
+    "numpy.arctan2": np.arctan2, "numpy.ones": np.ones, "numpy.repeat": np.repeat, "numpy.power": np.power, "numpy.isclose": np.isclose,
+    "math.sqrt": __import__("math").sqrt, "math.sin": __import__("math").sin, "math.cos": __import__("math").cos,
+    "builtins.complex": complex,
 }
 METHODS = {".sum", ".all", ".any", ".max", ".min", ".mean", ".std", ".ptp", ".argsort", ".astype", ".copy", ".tolist", ".item",
            ".dot", ".transpose", ".round", ".nonzero", ".flatten", ".ravel", ".conj", ".reshape", ".argmax", ".argmin", ".prod"}
@@ -51,8 +54,10 @@ def ev(t: Term, env: Dict[Term, Any]) -> Any:
             return np.pi
         if t[1] in ("numpy.int32", "numpy.int64"):
             return int
-        if t[1] in ("numpy.float64",):
+        if t[1] in ("numpy.float64", "numpy.float32"):
             return float
+        if t[1] in ("numpy.complex128", "numpy.complex64"):
+            return complex
         raise Unsupported(t[1])
     if k == "builtin":
         return {"int": int, "float": float, "bool": bool}.get(t[1])
